@@ -175,6 +175,11 @@ func (r *BaseOperationRepo) getDeletedOperations() (map[string]*types.Operation,
 }
 
 func (r *BaseOperationRepo) initJsonKey(key string) error {
+	// keep what a previous run of the node has stored
+	if bz, err := r.state.Get(key); err == nil && bz != nil {
+		return nil
+	}
+
 	err := r.state.Set(key, []byte("{}"))
 	if err != nil {
 		return fmt.Errorf("failed to init state: %w", err)
